@@ -83,6 +83,9 @@ func (m *machine) load(addr value) value {
 		if p == nil {
 			m.rtPanic("invalid memory address or nil pointer dereference")
 		}
+		if m.thr != nil {
+			m.access(p, false)
+		}
 		return copyVal(*p)
 	case wordPtrV:
 		return m.loadWord(p)
@@ -97,6 +100,9 @@ func (m *machine) store(addr value, v value) {
 	case *value:
 		if p == nil {
 			m.rtPanic("invalid memory address or nil pointer dereference")
+		}
+		if m.thr != nil {
+			m.access(p, true)
 		}
 		assignInPlace(p, v)
 	case wordPtrV:
@@ -1285,12 +1291,15 @@ func (m *machine) chanSend(chv value, v value) {
 		panic(&targetPanic{v: m.rtErr("send on closed channel"), site: m.where()})
 	}
 	for len(ch.buf) >= ch.cap {
-		if !m.blockOn("send", ch) {
+		if !m.blockOn("chan send", func() bool { return len(ch.buf) < ch.cap || ch.closed }) {
 			m.end("deadlock", "send on full channel at "+m.where())
+		}
+		if ch.closed {
+			panic(&targetPanic{v: m.rtErr("send on closed channel"), site: m.where()})
 		}
 	}
 	ch.buf = append(ch.buf, copyVal(v))
-	m.visibleOp("send")
+	m.hbChanSend(ch)
 }
 
 func (m *machine) chanRecv(chv value, et types.Type) (value, bool) {
@@ -1302,7 +1311,7 @@ func (m *machine) chanRecv(chv value, et types.Type) (value, bool) {
 		if len(ch.buf) > 0 {
 			v := ch.buf[0]
 			ch.buf = append([]value(nil), ch.buf[1:]...)
-			m.visibleOp("recv")
+			m.hbChanRecv(ch)
 			return v, true
 		}
 		if ch.closed {
@@ -1312,7 +1321,7 @@ func (m *machine) chanRecv(chv value, et types.Type) (value, bool) {
 			ch.fired = true
 			return m.zero(et), true
 		}
-		if !m.blockOn("recv", ch) {
+		if !m.blockOn("chan receive", func() bool { return len(ch.buf) > 0 || ch.closed || ch.timer }) {
 			m.end("deadlock", "receive on empty channel at "+m.where())
 		}
 	}
@@ -1356,11 +1365,51 @@ func (m *machine) selectInstr(fr *frame, instr *ssa.Select) value {
 			}
 		}
 		cands := append(append([]int(nil), ready...), timers...)
+		if len(ready) == 0 && len(timers) > 0 && instr.Blocking && m.multi() {
+			// nothing is ready yet: either the timer fires now or this goroutine waits
+			// and lets the others run (the timer may still fire later)
+			if m.chooseN(2, "timer") == 1 {
+				anyReady := func() bool {
+					for _, s := range states {
+						if s.ch == nil {
+							continue
+						}
+						if s.dir == types.SendOnly {
+							if len(s.ch.buf) < s.ch.cap {
+								return true
+							}
+						} else if len(s.ch.buf) > 0 || s.ch.closed {
+							return true
+						}
+					}
+					return false
+				}
+				if m.blockOn("select", anyReady) {
+					continue
+				}
+				// nobody else can run: the timer is the only way forward
+			}
+		}
 		if len(cands) == 0 {
 			if !instr.Blocking {
 				return m.selectResult(instr, -1, nil, false)
 			}
-			if !m.blockOn("select", nil) {
+			anyReady := func() bool {
+				for _, s := range states {
+					if s.ch == nil {
+						continue
+					}
+					if s.dir == types.SendOnly {
+						if len(s.ch.buf) < s.ch.cap {
+							return true
+						}
+					} else if len(s.ch.buf) > 0 || s.ch.closed {
+						return true
+					}
+				}
+				return false
+			}
+			if !m.blockOn("select", anyReady) {
 				m.end("deadlock", "select with no ready case at "+m.where())
 			}
 			continue
